@@ -85,6 +85,9 @@ keeps the blanks). The model is a model of the repaired tree.
 * C09 after the fix e0c256b: `$ENTER 10.0^400` became the same unbounded count as `$ENTER 10^400` (known finding D19); the fixed
   edge corpus skips it like its twin (the D19 probe covers it).
 * C14: a new generator family mixed 2- and 4-space indentation (InvalidTabError, correctly); generator corrected.
+* C04 (6-seed sweep after round 3, seed 11): the new re-evaluation family put redundant parentheses around a variable by a text
+  replacement that also hit the letter `v` inside the string literal `"v="`, so its own expectation was wrong; the replacement is
+  gone (the layout function already adds redundant parentheses at the tree level).
 * C09 thorough sweep: the token-soup family drew `$ENTER 10^400` — the known finding D19 under another family name. A hang is
   now identified by the call site the implementation was busy in when the timer fired (`compiler/commands/enter.py:run_compile`),
   and D19 is keyed on that call site, so the same defect reached through any generator is the same finding while a hang
